@@ -246,8 +246,16 @@ impl fmt::Display for QStreamId {
 pub struct InvalidStatusCode;
 
 /// HTTP status code (rfc9110).
-#[derive(Default, Copy, Clone, Eq, Hash, Ord, PartialEq, PartialOrd)]
+#[derive(Copy, Clone, Eq, Hash, Ord, PartialEq, PartialOrd)]
 pub struct StatusCode(u16);
+
+impl Default for StatusCode {
+    /// Returns [`StatusCode::OK`].
+    #[inline(always)]
+    fn default() -> Self {
+        Self::OK
+    }
+}
 
 impl StatusCode {
     /// The largest code.
